@@ -104,6 +104,14 @@ func c13sBal(s *state.StateDB, K int) string {
 	}
 }
 
+// c13sValidated: the validated flag of identity K-400 as a view's validator cache shows it
+func c13sValidated(a *appstate.AppState, K int) string {
+	if a.ValidatorsCache != nil && a.ValidatorsCache.IsValidated(common.Address{0x7b, byte(K - 400)}) {
+		return "val 1"
+	}
+	return "val -"
+}
+
 // c13sKey picks a modelled key: half of the time a balance, else one of the other kinds
 func c13sKey(r *rand.Rand, nKeys int) int {
 	if r.Intn(2) == 0 {
@@ -244,6 +252,23 @@ func c13sRun(c *hx.Ctx, cs c13sCase) error {
 	cur := map[int]string{}
 	height := 0
 	for b := 0; b < cs.Blocks; b++ {
+		// the validated flag of six identities (kind 4: 400+k), written through the identity state of both twins; views see it
+		// through their ValidatorsCache (built for the height the view is opened on)
+		if r.Intn(3) == 0 {
+			k := 400 + r.Intn(6)
+			ad := common.Address{0x7b, byte(k - 400)}
+			if _, on := cur[k]; on && r.Intn(2) == 0 {
+				app.IdentityState.SetValidated(ad, false)
+				twin.IdentityState.SetValidated(ad, false)
+				delete(cur, k)
+				c.Line(fmt.Sprintf("cset %d -", k), "ok")
+			} else {
+				app.IdentityState.SetValidated(ad, true)
+				twin.IdentityState.SetValidated(ad, true)
+				cur[k] = "1"
+				c.Line(fmt.Sprintf("cset %d 1", k), "ok")
+			}
+		}
 		// canonical writes
 		for j, n := 0, r.Intn(5); j < n; j++ {
 			k := c13sKey(r, nKeys)
@@ -345,6 +370,10 @@ func c13sRun(c *hx.Ctx, cs c13sCase) error {
 					}
 				} else {
 					c.Line(fmt.Sprintf("view %d", h), "ok")
+					for j := 0; j < 2; j++ {
+						k := 400 + r.Intn(6)
+						c.Line(fmt.Sprintf("vget %d", k), c13sValidated(view, k))
+					}
 					for j, n := 0, 1+r.Intn(5); j < n; j++ {
 						k := c13sKey(r, nKeys)
 						if r.Intn(3) == 0 {
@@ -406,6 +435,16 @@ func c13sRun(c *hx.Ctx, cs c13sCase) error {
 				c.Line(fmt.Sprintf("rget %d %d", h, k), "nover")
 				fail("C13:retained-version-not-readable", fmt.Sprintf("Readonly(%d) at height %d: %v", h, height, err))
 				continue
+			}
+			kv := 400 + r.Intn(6)
+			gv := c13sValidated(ro, kv)
+			c.Line(fmt.Sprintf("rget %d %d", h, kv), gv)
+			wv := "val -"
+			if _, ok := committed[h][kv]; ok {
+				wv = "val 1"
+			}
+			if gv != wv {
+				fail("C13:view-validators-not-of-its-height", fmt.Sprintf("Readonly(%d).ValidatorsCache.IsValidated(identity %d) = %s, committed at that height: %s (canonical height %d)", h, kv-400, gv, wv, height))
 			}
 			got := c13sBal(ro.State, k)
 			c.Line(fmt.Sprintf("rget %d %d", h, k), got)
